@@ -21,17 +21,20 @@ TEXT = {
  'C06': {'ref': '4.A C06', 'technique': TECH + 'reachability from exception edges, control dependence of re-raise, effect sets',
          'level': 'No exception/cancel edge of the wrapped call reaches the cache store; failures leave only by raising; marker removal is '
                   'owner-only; cancel() targets only the local waiter; the re-raise of a caught CancelledError must be control-dependent on '
-                  'the local waiter being pending (today violated: known finding F3), an uncaught one is the same defect; a miss of the cache mapping never leaves the wrapper.',
+                  'the local waiter being pending (today violated: known finding F3), an uncaught one is the same defect; a miss of the cache mapping never leaves the wrapper.'
+                  ' The wrapper raises nothing of its own: a raise statement whose exception can leave the wrapper must be a re-raise of what was caught.',
          'note': COMMON_NOTE + 'delay bounds; asyncio.shield semantics.'},
  'C14': {'ref': '4.A C14', 'technique': 'static analysis: value provenance of the key expression, accepted/known-bad encoding tables, effect set',
          'level': 'The key expression is reconstructed with aliases substituted and classified against tables of complete/incomplete encodings; '
                   'all table/cache subscripts use that one variable; arguments are forwarded unchanged; the mapping is selected by a None test '
-                  'and is the wrapper\'s only store.',
+                  'and is the wrapper\'s only store.'
+                  ' Whenever a function is given, every return of the decorator hands back the caching wrapper built over the selected mapping.',
          'note': COMMON_NOTE + '== / hash of user values, third-party mapping behaviour.'},
  'C02': {'ref': '4.B C02', 'technique': 'static analysis: affine abstract interpretation of counter/lock depth over all CFG paths, who-may-write rule, flag folding over sibling overrides, call-site result-use rule',
          'level': 'acquire() is interpreted abstractly on every path: success is reported only with the thread lock held one level deeper and the descriptor set; '
                   'the descriptor attribute has exactly three writers and is set only after a successful OS lock on a descriptor opened in the same activation; '
-                  'every concrete _lock is folded over block in {True, False} and must be exclusive flock / msvcrt.locking; release order and the use of acquire()\'s result at every call site are checked; release() never gives back more thread-lock levels than are held; only the two OS helpers close a descriptor; the with-body of `with lock:` / acquire_ctx() is entered only through the success edge of acquire().',
+                  'every concrete _lock is folded over block in {True, False} and must be exclusive flock / msvcrt.locking; release order and the use of acquire()\'s result at every call site are checked; release() never gives back more thread-lock levels than are held; only the two OS helpers close a descriptor; the with-body of `with lock:` / acquire_ctx() is entered only through the success edge of acquire().'
+                  ' Every normally returning path of a concrete _lock ends in a locking call that itself returned (no swallowed refusal, no retry loop that runs out - constant ranges are folded in their last iteration), and no POSIX record lock stands in for flock.',
          'note': COMMON_NOTE + 'the kernel\'s flock semantics (trusted), NFS emulation, free-running multi-process contention.'},
  'C12': {'ref': '4.B C12', 'technique': 'static analysis: path-sensitive affine interpretation (a*c+b over the entry depth c) with case splits, sign-domain evaluation of the argument normalisation, path rules under an OSError fault model',
          'level': 'For every path through acquire/release (helpers inlined, loops checked for a fixpoint, range(<linear>) loops multiplied out) the exit state must satisfy '
@@ -47,12 +50,14 @@ TEXT = {
          'level': 'In the batch task every completion inside the result loop must target the future registered under the yielded key of the same iteration; '
                   'the isinstance(result, Exception) branch decides the completion kind; every path entry -> exit (normal and exc:Exception edges) '
                   'passes the fan-out sweep or the missing-key sweep (or leaves the dict empty); answered futures leave the dict; callers await their key\'s future; '
-                  'the dispatcher spawns and never awaits a batch; nothing before the protected region can fail and no handler reads a possibly-unbound local; the dispatcher never re-raises a task outcome; the shared futures live in a strong dict owned by the instance.',
+                  'the dispatcher spawns and never awaits a batch; nothing before the protected region can fail and no handler reads a possibly-unbound local; the dispatcher never re-raises a task outcome; the shared futures live in a strong dict owned by the instance.'
+                  ' A future taken out of the per-batch dict is completed in the same iteration unless its own done()/cancelled() excuses it; the value the batch function returns is only iterated by the delivery loop, result by result (no finaliser, no buffering).',
          'note': COMMON_NOTE + 'scheduling of the dispatcher task; outcomes for keys yielded twice / unknown keys (surface as a batch failure today - note).'},
  'C09': {'ref': '4.D C09', 'technique': 'static analysis: cancellation-sharing typestate (which awaits can cancel a shared future), control dependence of completions on done()',
          'level': 'Task.cancel() cancels what the task awaits: every await of a future reachable through the retention cache must be behind asyncio.shield, '
                   'every completion must be state-guarded or un-cancellable, and no raising completion may sit in the fan-out try. '
-                  'Today 2 + 4 + 1 obligations fail (known finding F7, reproduced); any new site is a fresh violation.',
+                  'Today 2 + 4 + 1 obligations fail (known finding F7, reproduced); any new site is a fresh violation.'
+                  ' Results are delivered as they are yielded (= C04-B11): a held-back result keeps its caller pending and cancellable for the rest of the batch.',
          'note': COMMON_NOTE + 'nothing material - the shape is the property; C09-R4 (eviction tied to the future) is evaluated only once R1 holds.'},
  'C10': {'ref': '4.D C10', 'technique': TECH + 'dominance of growth sites by the size guard, no-suspension, who-may-call for the batch function and semaphore, container-kind rules',
          'level': 'Every growth of the batch list is dominated since the previous growth by len(list) < max_batch_size; the bulk growth is an islice bounded by max_batch_size - len(list) with no suspension after the guard; '
@@ -72,7 +77,8 @@ TEXT = {
          'level': 'The completion flag is settable only on the normal edge of the wrapped call; the round set is bound once and only grows; an Exception of the call is contained and leads back to the round loop; '
                   'every dequeue (3 sites) flows into a loader coroutine that is gathered before the list is cleared or the timer awaited; the loader contains producer failures and records each element as it arrives; '
                   'every entry point makes exactly one thread-safe hand-off with its adaptor; any-thread code touches the asyncio.Queue only via call_soon_threadsafe and must not mutate the loop-owned flag '
-                  '(today violated by _put: known finding F5); no suspension between set() and the round-loop test; a successful call always sets the flag; loaders are gathered before their list is cleared or re-bound.',
+                  '(today violated by _put: known finding F5); no suspension between set() and the round-loop test; a successful call always sets the flag; loaders are gathered before their list is cleared or re-bound.'
+                  ' After a successful call of the wrapped function every path back to the round test - exception edges of later statements in the same try included - passes the flag being set.',
          'note': COMMON_NOTE + '"eventually" in time; asyncio.Queue / wait_for internals; exactly-once for foreign-thread submissions (not promised).'},
  'C07': {'ref': '4.C C07', 'technique': TECH + 'ordering rule in wait(), atomic-section rule (clear+task_done before next suspension), get/task_done pairing typestate, cancel-transparency of handlers in the daemon',
          'level': 'wait() joins the queue then waits for the flag with nothing suspending afterwards; after the blocking get the flag is cleared and the producer marked done before the daemon can be suspended; '
@@ -96,11 +102,13 @@ TEXT = {
          'note': COMMON_NOTE + 'the TOCTOU between the is_running() test and the loop stopping/starting; completion under pool exhaustion.'},
  'C18': {'ref': '4.E C18', 'technique': 'static analysis: affine-use (ownership) analysis of one-shot iterator values along both paths of split',
          'level': 'split is evaluated symbolically on both paths (callable / iterable condition): every iterator value (parameters, each tee output, map, compress) is consumed at most once; the callable is applied by exactly one map over a private tee copy of the source; '
-                  'the results are compress(a, c) and compress(b, map(not_, c\')) with a, b and c, c\' sibling outputs of one tee each, truthy side first; no eager consumer; split and its helpers never close / throw into an iterator and no bare next() can leak StopIteration out of a generator; exhaust drains via deque(maxlen=0) and returns nothing.',
+                  'the results are compress(a, c) and compress(b, map(not_, c\')) with a, b and c, c\' sibling outputs of one tee each, truthy side first; no eager consumer; split and its helpers never close / throw into an iterator and no bare next() can leak StopIteration out of a generator; exhaust drains via deque(maxlen=0) and returns nothing.'
+                  " What is mapped over the source is the caller's own predicate (a partial or wrapper built from it is something else); exhaust has no handler around its drain that can complete normally.",
          'note': COMMON_NOTE + 'nothing material; tee/compress/map semantics are trusted stdlib.'},
  'C19': {'ref': '4.E C19', 'technique': 'static analysis: syntactic rules on the nested helpers with path checks, forbidden-call scan with positive control, default-argument resolution',
          'level': 'the string item is cut once at the first separator (split(sep, 1), partition(sep), or find(sep) with slices [:i] / [i + len(sep):]); a missing separator reaches `raise ValueError` on every path; the default parser resolves to ast.literal_eval and the module contains no eval/exec/compile/import/pickle/getattr call or reference '
-                  '(positive control must match); parse(x) is control-dependent on isinstance(x, str) and every Exception edge of it reaches `return x`, with x never re-bound on the way (the parser and the fallback see the caller\'s value), every string reaches the parser, and a module-level guarded parser is handed the caller\'s parser at every use; the parse_keys switch selects (parsed, parsed) vs (raw, parsed); mappings go through .items() and every item through the pair parser into dict().',
+                  '(positive control must match); parse(x) is control-dependent on isinstance(x, str) and every Exception edge of it reaches `return x`, with x never re-bound on the way (the parser and the fallback see the caller\'s value), every string reaches the parser, and a module-level guarded parser is handed the caller\'s parser at every use; the parse_keys switch selects (parsed, parsed) vs (raw, parsed); mappings go through .items() and every item through the pair parser into dict().'
+                  " From the success edge of the parser call every path returns that call's value; the item is not re-bound before it is taken apart; nothing is refused because of what a transformation of the separator looks like.",
          'note': COMMON_NOTE + 'extensional equality with a reference model on all inputs; behaviour of ast.literal_eval itself.'},
  'C20': {'ref': '4.E C20', 'technique': 'static analysis: call-shape rule on asyncio.gather, iteration provenance, control dependence of the yield',
          'level': 'gather_excs passes *aws unfiltered to asyncio.gather with the literal return_exceptions=True, iterates the awaited result directly, yields res if and only if isinstance(res, only) (no further condition); raise_first_exc forwards (aws, only) and raises the first value.',
